@@ -45,8 +45,8 @@ theorem handshake_none_false (it : Item) (h : (handshake it).1 = none) : (handsh
       · rw [if_pos h2] at h; simp at h
       · rw [if_neg h2] at h ⊢
         cases hb : m.body with
-        | undecodable => rw [hb] at h; simp at h
-        | call t => rw [hb] at h; simp at h
+        | undecodable => rfl
+        | call t => rfl
         | handshake wf ok v => rw [hb] at h; cases wf <;> cases ok <;> cases v <;> simp at h ⊢
 
 theorem handshake_ok_reply (it : Item) (h : (handshake it).2 = true) :
@@ -246,5 +246,821 @@ theorem workerExit_good (p : Params) (hg : GoodCfg p.cfg) (l : Loop) (i : Nat) (
   split
   · simp
   · split <;> simp
+
+
+/-! ### the loop state -/
+
+theorem threadItem_running (p : Params) (l : Loop) (i : Nat) (c : Conn) (it : Item) (gone : Bool) (raw : Cls) :
+    (threadItem p l i c it gone raw).running = l.running := by
+  unfold threadItem
+  split
+  · rfl
+  · simp only
+    split
+    · split <;> simp
+    · split <;> simp
+  · simp only
+    split <;> simp
+
+theorem threadDeny_running (p : Params) (hg : GoodCfg p.cfg) (l : Loop) (i : Nat) (c : Conn) (it : Item) (gone : Bool) :
+    (threadDeny p l i c it gone).running = l.running := by
+  unfold threadDeny
+  simp only
+  split
+  · simp
+  · rename_i e he
+    have := (doDeny_esc c it gone e he).1
+    subst this
+    simp [caught_of_exception hg.thrDeny (c := .connClosed) rfl]
+
+theorem threadStep_running (p : Params) (hg : GoodCfg p.cfg) (l : Loop) (ev : Ev) :
+    (threadStep p l ev).running = l.running := by
+  unfold threadStep
+  split
+  · split
+    · rfl
+    · split
+      · rfl
+      · split
+        · rename_i l' h; simp [(poolTake_some p l _ l' h).1]
+        · rfl
+  · split
+    · rfl
+    · split
+      · rfl
+      · split
+        · exact threadItem_running ..
+        · split
+          · rfl
+          · split
+            · rfl
+            · split
+              · rename_i l' h
+                rw [threadItem_running]
+                simp [(poolTake_some p l _ l' h).1]
+              · rw [threadDeny_running p hg]
+
+theorem muxStep_running (p : Params) (hg : GoodCfg p.cfg) (l : Loop) (ev : Ev) (hc : ClientEv ev) :
+    (muxStep p l ev).running = l.running := by
+  unfold muxStep
+  split
+  · rfl
+  · rename_i i it gone raw
+    have hraw : isException raw = true := hc
+    split
+    · rfl
+    · split
+      · rfl
+      · split
+        · rfl
+        · split
+          · rfl
+          · simp only
+            split
+            · split <;> simp
+            · rename_i e he
+              have := (doHandshake_esc _ it gone e he).1
+              subst this
+              simp [caught_of_exception hg.muxShake (c := .connClosed) rfl]
+        · split
+          · rfl
+          · simp only
+            split
+            · simp
+            · rename_i e he
+              have := doRequest_esc_exc _ it gone raw hraw e he
+              simp [caught_of_exception hg.muxReq this]
+
+theorem step_running (p : Params) (hg : GoodCfg p.cfg) (l : Loop) (ev : Ev) (hc : ClientEv ev) :
+    (step p l ev).running = l.running := by
+  unfold step
+  split
+  · exact threadStep_running p hg l ev
+  · exact muxStep_running p hg l ev hc
+
+
+/-! ### frame: an event on connection `i` does not touch the record of connection `j ≠ i` -/
+
+theorem threadItem_frame (p : Params) (l : Loop) (i j : Nat) (h : i ≠ j) (c : Conn) (it : Item) (gone : Bool) (raw : Cls) :
+    (threadItem p l i c it gone raw).conns[j]? = l.conns[j]? := by
+  unfold threadItem
+  split
+  · rfl
+  · simp only
+    split
+    · split <;> simp [h]
+    · split <;> simp [h]
+  · simp only
+    split <;> simp [h]
+
+theorem threadDeny_frame (p : Params) (l : Loop) (i j : Nat) (h : i ≠ j) (c : Conn) (it : Item) (gone : Bool) :
+    (threadDeny p l i c it gone).conns[j]? = l.conns[j]? := by
+  unfold threadDeny
+  simp only
+  split
+  · simp [h]
+  · split <;> simp [h]
+
+theorem step_frame (p : Params) (l : Loop) (ev : Ev) (j : Nat) (h : ev.conn ≠ j) :
+    (step p l ev).conns[j]? = l.conns[j]? := by
+  unfold step
+  split
+  · unfold threadStep
+    split
+    · split
+      · rfl
+      · split
+        · rfl
+        · split
+          · rename_i l' h'; simp [(poolTake_some p l _ l' h').2.1]
+          · rfl
+    · rename_i i it gone raw
+      have h : i ≠ j := h
+      split
+      · rfl
+      · split
+        · rfl
+        · split
+          · exact threadItem_frame p l i j h ..
+          · split
+            · rfl
+            · split
+              · rfl
+              · split
+                · rename_i l' h'
+                  rw [threadItem_frame p _ i j h]
+                  simp [(poolTake_some p l _ l' h').2.1]
+                · rw [threadDeny_frame p _ i j h]
+  · unfold muxStep
+    split
+    · rfl
+    · rename_i i it gone raw
+      have h : i ≠ j := h
+      split
+      · rfl
+      · split
+        · rfl
+        · split
+          · rfl
+          · split
+            · rfl
+            · simp only
+              split
+              · split <;> simp [h]
+              · split
+                · simp [h]
+                · unfold muxLoopLevel; split <;> simp [h]
+          · split
+            · rfl
+            · simp only
+              split
+              · simp [h]
+              · split
+                · simp [h]
+                · unfold muxLoopLevel; split <;> simp [h]
+
+theorem step_objects (p : Params) (l : Loop) (ev : Ev) : (step p l ev).objects = l.objects := by
+  unfold step
+  split
+  · unfold threadStep
+    split
+    · split
+      · rfl
+      · split
+        · rfl
+        · split
+          · rename_i l' h'; simp [(poolTake_some p l _ l' h').2.2.2.2.2.2.1]
+          · rfl
+    · split
+      · rfl
+      · split
+        · rfl
+        · split
+          · unfold threadItem
+            split
+            · rfl
+            · simp only; split
+              · split <;> simp
+              · split <;> simp
+            · simp only; split <;> simp
+          · split
+            · rfl
+            · split
+              · rfl
+              · split
+                · rename_i l' h'
+                  have := (poolTake_some p l _ l' h').2.2.2.2.2.2.1
+                  unfold threadItem
+                  split
+                  · simpa using this
+                  · simp only; split
+                    · split <;> simpa using this
+                    · split <;> simpa using this
+                  · simp only; split <;> simpa using this
+                · unfold threadDeny
+                  simp only
+                  split
+                  · simp
+                  · split <;> simp
+  · unfold muxStep
+    split
+    · rfl
+    · split
+      · rfl
+      · split
+        · rfl
+        · split
+          · rfl
+          · split
+            · rfl
+            · simp only
+              split
+              · split <;> simp
+              · split
+                · simp
+                · unfold muxLoopLevel; split <;> simp
+          · split
+            · rfl
+            · simp only
+              split
+              · simp
+              · split
+                · simp
+                · unfold muxLoopLevel; split <;> simp
+
+
+/-! ### accounting invariants -/
+
+@[simp] theorem doRequest_phase (c : Conn) (it : Item) (gone : Bool) (raw : Cls) :
+    (doRequest c it gone raw).conn.phase = c.phase := by
+  unfold doRequest
+  simp only
+  split
+  · split <;> rfl
+  · rfl
+
+@[simp] theorem doHandshake_phase (c : Conn) (it : Item) (gone : Bool) :
+    (doHandshake c it gone).conn.phase = c.phase := by
+  unfold doHandshake
+  split
+  · rfl
+  · split <;> rfl
+
+@[simp] theorem closeNoHook_phase (c : Conn) : (closeNoHook c).phase = .closed := rfl
+@[simp] theorem closeWithHook_phase (c : Conn) : (closeWithHook c).phase = .closed := rfl
+
+/-- thread-pool server: the workers in `Pool.busy` are exactly the accepted connections that are
+    not closed; nothing is abandoned; the idle set stays within its bounds -/
+structure TInv (p : Params) (l : Loop) : Prop where
+  nodup : l.busy.Nodup
+  live : ∀ i, i ∈ l.busy ↔ (i ∈ l.seen ∧ ∃ c, l.conns[i]? = some c ∧ c.phase ≠ .closed)
+  nozombie : l.zombie = []
+  idle_le : l.idle ≤ p.mn
+  total_ge : p.mn ≤ l.idle + l.busy.length
+
+/-- a connection served by a worker stays open with a new record -/
+theorem TInv.setLive {p : Params} {l : Loop} (h : TInv p l) {i : Nat} {c0 c : Conn}
+    (hc : l.conns[i]? = some c0) (hb : i ∈ l.busy) (hp : c.phase ≠ .closed) : TInv p (setConn l i c) := by
+  refine ⟨h.nodup, ?_, h.nozombie, h.idle_le, h.total_ge⟩
+  intro j
+  by_cases hij : i = j
+  · subst hij
+    simp only [setConn_busy, setConn_seen, setConn_get_self l i c c0 hc]
+    constructor
+    · intro hb'; exact ⟨((h.live i).1 hb').1, c, rfl, hp⟩
+    · intro _; exact hb
+  · simp only [setConn_busy, setConn_seen, setConn_get_ne l i c j hij]
+    exact h.live j
+
+/-- a connection served by a worker is closed and its worker goes back to the pool -/
+theorem TInv.closeDone {p : Params} {l : Loop} (h : TInv p l) {i : Nat} {c0 c : Conn}
+    (hc : l.conns[i]? = some c0) (hb : i ∈ l.busy) (hp : c.phase = .closed) :
+    TInv p (poolDone p (setConn l i c) i) := by
+  have hlen : (l.busy.erase i).length + 1 = l.busy.length := by
+    rw [List.length_erase_of_mem hb]
+    have : 0 < l.busy.length := List.length_pos_of_mem hb
+    omega
+  refine ⟨?_, ?_, ?_, ?_, ?_⟩
+  · simpa using h.nodup.erase i
+  · intro j
+    simp only [poolDone_busy, poolDone_seen, poolDone_conns, setConn_busy, setConn_seen]
+    rw [h.nodup.mem_erase_iff]
+    by_cases hij : i = j
+    · subst hij
+      rw [setConn_get_self l i c c0 hc]
+      constructor
+      · intro hh; exact absurd rfl hh.1
+      · rintro ⟨_, c', hc', hp'⟩
+        simp only [Option.some.injEq] at hc'; subst hc'; exact absurd hp hp'
+    · rw [setConn_get_ne l i c j hij]
+      constructor
+      · intro hh; exact (h.live j).1 hh.2
+      · intro hh; exact ⟨fun e => hij e.symm, (h.live j).2 hh⟩
+  · simpa using h.nozombie
+  · rw [poolDone_idle, show (setConn l i c).idle = l.idle from rfl]
+    have := h.idle_le
+    by_cases hm : p.mn ≤ l.idle
+    · rw [if_pos hm]; omega
+    · rw [if_neg hm]; omega
+  · rw [poolDone_idle, show (setConn l i c).idle = l.idle from rfl]; simp only [poolDone_busy, setConn_busy]
+    have := h.total_ge
+    by_cases hm : p.mn ≤ l.idle
+    · rw [if_pos hm]; omega
+    · rw [if_neg hm]; omega
+
+/-- the acceptor hands a new connection to a worker -/
+theorem TInv.accept {p : Params} {l l' : Loop} (h : TInv p l) {i : Nat} {c : Conn}
+    (hc : l.conns[i]? = some c) (hp : c.phase = .fresh) (hs : i ∉ l.seen) (ht : poolTake p l i = some l') :
+    TInv p { l' with seen := l'.seen ++ [i] } ∧ i ∈ l'.busy ∧ l'.conns = l.conns := by
+  obtain ⟨_, hconns, hseen, hbusy, _, hz, _, hidle⟩ := poolTake_some p l i l' ht
+  have hnb : i ∉ l.busy := fun hb => hs ((h.live i).1 hb).1
+  refine ⟨⟨?_, ?_, ?_, ?_, ?_⟩, by simp [hbusy], hconns⟩
+  · simp only [hbusy]
+    rw [List.nodup_append]
+    refine ⟨h.nodup, by simp, ?_⟩
+    intro a ha b hb'
+    simp only [List.mem_singleton] at hb'
+    subst hb'
+    intro e; subst e; exact hnb ha
+  · intro j
+    simp only [hbusy, hseen, hconns, List.mem_append, List.mem_singleton]
+    by_cases hij : j = i
+    · subst hij
+      constructor
+      · intro _; exact ⟨Or.inr rfl, c, hc, by rw [hp]; decide⟩
+      · intro _; exact Or.inr rfl
+    · constructor
+      · rintro (hh | hh)
+        · have := (h.live j).1 hh; exact ⟨Or.inl this.1, this.2⟩
+        · exact absurd hh hij
+      · rintro ⟨hh | hh, hx⟩
+        · exact Or.inl ((h.live j).2 ⟨hh, hx⟩)
+        · exact absurd hh hij
+  · simpa [hz] using h.nozombie
+  · have := h.idle_le
+    rcases hidle with ⟨_, h2⟩ | ⟨_, _, h2⟩ <;> simp only [h2] <;> omega
+  · have := h.total_ge
+    simp only [hbusy, List.length_append, List.length_singleton]
+    rcases hidle with ⟨_, h2⟩ | ⟨_, _, h2⟩ <;> simp only [h2] <;> omega
+
+theorem threadItem_inv (p : Params) (hg : GoodCfg p.cfg) (l : Loop) (h : TInv p l) (i : Nat) (c : Conn)
+    (hc : l.conns[i]? = some c) (hb : i ∈ l.busy) (it : Item) (gone : Bool) (raw : Cls)
+    (hraw : isException raw = true) : TInv p (threadItem p l i c it gone raw) := by
+  unfold threadItem
+  split
+  · exact h
+  · rename_i hp
+    simp only
+    split
+    · split
+      · exact h.setLive hc hb (by simp)
+      · simp only [workerExit]
+        exact h.closeDone hc hb (by simp)
+    · rename_i e he
+      have := (doHandshake_esc c it gone e he).1
+      subst this
+      rw [if_pos (caught_of_exception hg.thrShake (c := .connClosed) rfl)]
+      simp only [workerExit]
+      exact h.closeDone hc hb (by simp)
+  · rename_i hp
+    simp only
+    split
+    · exact h.setLive hc hb (by simp [hp])
+    · rename_i e he
+      have hx := doRequest_esc_exc c it gone raw hraw e he
+      rw [workerExit_good p hg]
+      · exact h.closeDone hc hb (by simp)
+      · intro x; split <;> intro hx' <;> simp at hx'; subst hx'; exact hx
+
+theorem threadStep_inv (p : Params) (hg : GoodCfg p.cfg) (l : Loop) (h : TInv p l) (ev : Ev) (hc : ClientEv ev) :
+    TInv p (threadStep p l ev) := by
+  unfold threadStep
+  split
+  · rename_i i
+    split
+    · exact h
+    · rename_i c hci
+      split
+      · exact h
+      · rename_i hcond
+        simp only [Bool.or_eq_true, Bool.not_eq_true', List.contains_eq_mem, decide_eq_true_eq, bne_iff_ne, ne_eq,
+          not_or, Decidable.not_not] at hcond
+        split
+        · rename_i l' ht
+          exact (h.accept hci hcond.2 hcond.1.2 ht).1
+        · exact h
+  · rename_i i it gone raw
+    have hraw : isException raw = true := hc
+    split
+    · exact h
+    · rename_i c hci
+      split
+      · exact h
+      · split
+        · rename_i hb
+          exact threadItem_inv p hg l h i c hci (by simpa using hb) it gone raw hraw
+        · split
+          · exact h
+          · rename_i hnb hns
+            split
+            · exact h
+            · rename_i hcond
+              simp only [Bool.or_eq_true, Bool.not_eq_true', bne_iff_ne, ne_eq, not_or, Decidable.not_not] at hcond
+              have hns' : i ∉ l.seen := by simpa using hns
+              split
+              · rename_i l' ht
+                obtain ⟨hinv, hb', hconns⟩ := h.accept hci hcond.2 hns' ht
+                exact threadItem_inv p hg _ hinv i c (by simpa [hconns] using hci) (by simpa using hb') it gone raw hraw
+              · -- denied: closed by the acceptor, never held a worker
+                unfold threadDeny
+                have hnb' : i ∉ l.busy := by simpa using hnb
+                have key : TInv p (setConn { l with seen := l.seen ++ [i] } i (closeNoHook (doDeny c it gone).conn)) := by
+                  refine ⟨h.nodup, ?_, h.nozombie, h.idle_le, h.total_ge⟩
+                  intro j
+                  simp only [setConn_busy, setConn_seen, List.mem_append, List.mem_singleton]
+                  by_cases hij : i = j
+                  · subst hij
+                    rw [setConn_get_self _ i _ c (by simpa using hci)]
+                    constructor
+                    · intro hh; exact absurd hh hnb'
+                    · rintro ⟨_, c', hc', hp'⟩
+                      simp only [Option.some.injEq] at hc'; subst hc'; simp at hp'
+                  · rw [setConn_get_ne _ i _ j hij]
+                    constructor
+                    · intro hh; have := (h.live j).1 hh; exact ⟨Or.inl this.1, this.2⟩
+                    · rintro ⟨hh | hh, hx⟩
+                      · exact (h.live j).2 ⟨hh, hx⟩
+                      · exact absurd hh.symm hij
+                simp only
+                split
+                · exact key
+                · split
+                  · exact key
+                  · exact ⟨key.nodup, key.live, key.nozombie, key.idle_le, key.total_ge⟩
+
+/-- multiplex server: the selector holds exactly the active connections; nothing is abandoned -/
+structure MInv (l : Loop) : Prop where
+  nodup : l.registered.Nodup
+  reg : ∀ i, i ∈ l.registered ↔ ∃ c, l.conns[i]? = some c ∧ c.phase = .active
+  nozombie : l.zombie = []
+
+theorem muxStep_inv (p : Params) (hg : GoodCfg p.cfg) (l : Loop) (h : MInv l) (ev : Ev) (hc : ClientEv ev) :
+    MInv (muxStep p l ev) := by
+  unfold muxStep
+  split
+  · exact h
+  · rename_i i it gone raw
+    have hraw : isException raw = true := hc
+    split
+    · exact h
+    · rename_i c hci
+      split
+      · exact h
+      · split
+        · exact h
+        · rename_i hp
+          split
+          · exact h
+          · have hnr : i ∉ l.registered := by
+              intro hr
+              obtain ⟨c', hc', hp'⟩ := (h.reg i).1 hr
+              rw [hci] at hc'; simp only [Option.some.injEq] at hc'; subst hc'
+              rw [hp] at hp'; cases hp'
+            -- a failed handshake: closed, never registered
+            have closedCase : ∀ (c' : Conn), c'.phase = .closed →
+                MInv (setConn { l with seen := l.seen ++ [i] } i c') := by
+              intro c' hp'
+              refine ⟨h.nodup, ?_, h.nozombie⟩
+              intro j
+              simp only [setConn_registered]
+              by_cases hij : i = j
+              · subst hij
+                rw [setConn_get_self _ i _ c (by simpa using hci)]
+                constructor
+                · intro hh; exact absurd hh hnr
+                · rintro ⟨c'', hc'', hp''⟩
+                  simp only [Option.some.injEq] at hc''; subst hc''; rw [hp'] at hp''; cases hp''
+              · rw [setConn_get_ne _ i _ j hij]; exact h.reg j
+            simp only
+            split
+            · split
+              · refine ⟨?_, ?_, h.nozombie⟩
+                · simp only [setConn_registered]
+                  rw [List.nodup_append]
+                  refine ⟨h.nodup, by simp, ?_⟩
+                  intro a ha b hb'
+                  simp only [List.mem_singleton] at hb'
+                  subst hb'
+                  intro e; subst e; exact hnr ha
+                · intro j
+                  simp only [setConn_registered, List.mem_append, List.mem_singleton]
+                  by_cases hij : i = j
+                  · subst hij
+                    rw [setConn_get_self _ i _ c (by simpa using hci)]
+                    constructor
+                    · intro _; exact ⟨_, rfl, rfl⟩
+                    · intro _; exact Or.inr rfl
+                  · rw [setConn_get_ne _ i _ j hij]
+                    constructor
+                    · rintro (hh | hh)
+                      · exact (h.reg j).1 hh
+                      · exact absurd hh.symm hij
+                    · intro hh; exact Or.inl ((h.reg j).2 hh)
+              · exact closedCase _ (by simp)
+            · rename_i e he
+              have := (doHandshake_esc c it gone e he).1
+              subst this
+              rw [if_pos (caught_of_exception hg.muxShake (c := .connClosed) rfl)]
+              exact closedCase _ (by simp)
+        · rename_i hp
+          split
+          · exact h
+          · rename_i hr
+            have hr' : i ∈ l.registered := by simpa using hr
+            simp only
+            split
+            · refine ⟨h.nodup, ?_, h.nozombie⟩
+              intro j
+              simp only [setConn_registered]
+              by_cases hij : i = j
+              · subst hij
+                rw [setConn_get_self _ i _ c hci]
+                constructor
+                · intro _; exact ⟨_, rfl, by simp [hp]⟩
+                · intro _; exact hr'
+              · rw [setConn_get_ne _ i _ j hij]; exact h.reg j
+            · rename_i e he
+              have hx := doRequest_esc_exc c it gone raw hraw e he
+              rw [if_pos (caught_of_exception hg.muxReq hx)]
+              refine ⟨by simpa using h.nodup.erase i, ?_, h.nozombie⟩
+              intro j
+              simp only [setConn_registered]
+              rw [h.nodup.mem_erase_iff]
+              by_cases hij : i = j
+              · subst hij
+                rw [setConn_get_self _ i _ c hci]
+                constructor
+                · intro hh; exact absurd rfl hh.1
+                · rintro ⟨c'', hc'', hp''⟩
+                  simp only [Option.some.injEq] at hc''; subst hc''; simp at hp''
+              · rw [setConn_get_ne _ i _ j hij]
+                constructor
+                · intro hh; exact (h.reg j).1 hh.2
+                · intro hh; exact ⟨fun e => hij e.symm, (h.reg j).2 hh⟩
+
+
+/-! ### membership frame: an event on `i` changes the membership of no other id in any set -/
+
+def MemFrame (l l' : Loop) (j : Nat) : Prop :=
+  (j ∈ l'.busy ↔ j ∈ l.busy) ∧ (j ∈ l'.zombie ↔ j ∈ l.zombie) ∧
+  (j ∈ l'.registered ↔ j ∈ l.registered) ∧ (j ∈ l'.seen ↔ j ∈ l.seen)
+
+theorem MemFrame.refl (l : Loop) (j : Nat) : MemFrame l l j := ⟨Iff.rfl, Iff.rfl, Iff.rfl, Iff.rfl⟩
+
+theorem MemFrame.trans {l l' l'' : Loop} {j : Nat} (h1 : MemFrame l l' j) (h2 : MemFrame l' l'' j) : MemFrame l l'' j :=
+  ⟨h2.1.trans h1.1, h2.2.1.trans h1.2.1, h2.2.2.1.trans h1.2.2.1, h2.2.2.2.trans h1.2.2.2⟩
+
+theorem memFrame_setConn (l : Loop) (i j : Nat) (c : Conn) : MemFrame l (setConn l i c) j := MemFrame.refl l j
+
+theorem memFrame_poolDone (p : Params) (l : Loop) (i j : Nat) (h : j ≠ i) : MemFrame l (poolDone p l i) j := by
+  refine ⟨?_, ?_, ?_, ?_⟩ <;> simp [List.mem_erase_of_ne h]
+
+theorem memFrame_workerExit (p : Params) (l : Loop) (i j : Nat) (h : j ≠ i) (e : Option Cls) :
+    MemFrame l (workerExit p l i e) j := by
+  unfold workerExit
+  split
+  · exact memFrame_poolDone p l i j h
+  · split
+    · exact memFrame_poolDone p l i j h
+    · refine ⟨Iff.rfl, ?_, Iff.rfl, Iff.rfl⟩
+      simp [List.mem_append, h]
+
+theorem memFrame_accept (p : Params) (l l' : Loop) (i j : Nat) (h : j ≠ i) (ht : poolTake p l i = some l') :
+    MemFrame l { l' with seen := l'.seen ++ [i] } j := by
+  obtain ⟨_, _, hseen, hbusy, hreg, hz, _, _⟩ := poolTake_some p l i l' ht
+  refine ⟨?_, ?_, ?_, ?_⟩ <;> simp [hseen, hbusy, hreg, hz, List.mem_append, h]
+
+theorem memFrame_threadItem (p : Params) (l : Loop) (i j : Nat) (h : j ≠ i) (c : Conn) (it : Item) (gone : Bool) (raw : Cls) :
+    MemFrame l (threadItem p l i c it gone raw) j := by
+  unfold threadItem
+  split
+  · exact MemFrame.refl l j
+  · simp only
+    split
+    · split
+      · exact memFrame_setConn ..
+      · exact (memFrame_setConn l i j _).trans (memFrame_workerExit p _ i j h _)
+    · split
+      · exact (memFrame_setConn l i j _).trans (memFrame_workerExit p _ i j h _)
+      · exact (memFrame_setConn l i j _).trans (memFrame_workerExit p _ i j h _)
+  · simp only
+    split
+    · exact memFrame_setConn ..
+    · exact (memFrame_setConn l i j _).trans (memFrame_workerExit p _ i j h _)
+
+theorem step_mem_frame (p : Params) (l : Loop) (ev : Ev) (j : Nat) (h : ev.conn ≠ j) : MemFrame l (step p l ev) j := by
+  unfold step
+  split
+  · unfold threadStep
+    split
+    · rename_i i
+      have hji : j ≠ i := fun e => h e.symm
+      split
+      · exact MemFrame.refl l j
+      · split
+        · exact MemFrame.refl l j
+        · split
+          · rename_i l' ht; exact memFrame_accept p l l' i j hji ht
+          · exact MemFrame.refl l j
+    · rename_i i it gone raw
+      have hji : j ≠ i := fun e => h e.symm
+      split
+      · exact MemFrame.refl l j
+      · split
+        · exact MemFrame.refl l j
+        · split
+          · exact memFrame_threadItem p l i j hji ..
+          · split
+            · exact MemFrame.refl l j
+            · split
+              · exact MemFrame.refl l j
+              · split
+                · rename_i l' ht
+                  exact (memFrame_accept p l l' i j hji ht).trans (memFrame_threadItem p _ i j hji ..)
+                · unfold threadDeny
+                  have base : MemFrame l { l with seen := l.seen ++ [i] } j := by
+                    refine ⟨Iff.rfl, Iff.rfl, Iff.rfl, ?_⟩
+                    simp [List.mem_append, hji]
+                  simp only
+                  split
+                  · exact base
+                  · split
+                    · exact base
+                    · exact base
+  · unfold muxStep
+    split
+    · exact MemFrame.refl l j
+    · rename_i i it gone raw
+      have hji : j ≠ i := fun e => h e.symm
+      split
+      · exact MemFrame.refl l j
+      · split
+        · exact MemFrame.refl l j
+        · split
+          · exact MemFrame.refl l j
+          · split
+            · exact MemFrame.refl l j
+            · have base : MemFrame l { l with seen := l.seen ++ [i] } j := by
+                refine ⟨Iff.rfl, Iff.rfl, Iff.rfl, ?_⟩
+                simp [List.mem_append, hji]
+              simp only
+              split
+              · split
+                · refine ⟨base.1, base.2.1, ?_, base.2.2.2⟩
+                  simp [List.mem_append, hji]
+                · exact base
+              · split
+                · exact base
+                · unfold muxLoopLevel
+                  split
+                  · refine ⟨base.1, ?_, base.2.2.1, base.2.2.2⟩
+                    simp [List.mem_append, hji]
+                  · refine ⟨base.1, ?_, base.2.2.1, base.2.2.2⟩
+                    simp [List.mem_append, hji]
+          · split
+            · exact MemFrame.refl l j
+            · simp only
+              split
+              · exact memFrame_setConn ..
+              · split
+                · refine ⟨Iff.rfl, Iff.rfl, ?_, Iff.rfl⟩
+                  simp [List.mem_erase_of_ne hji]
+                · unfold muxLoopLevel
+                  split
+                  · exact ⟨Iff.rfl, Iff.rfl, Iff.rfl, Iff.rfl⟩
+                  · exact ⟨Iff.rfl, Iff.rfl, Iff.rfl, Iff.rfl⟩
+
+
+/-! ### a served connection sees exactly `Server.connEvent` of its own items -/
+
+/-- the connection is being served: a worker holds it / it is registered with a running loop -/
+def Served (p : Params) (l : Loop) (w : Nat) : Prop :=
+  match p.kind with
+  | .thread => w ∈ l.busy ∧ w ∉ l.zombie
+  | .multiplex => l.running = true ∧ w ∈ l.registered ∧ w ∉ l.zombie
+
+def evOn (w : Nat) (ev : Ev) (c : Conn) : Conn :=
+  match ev with
+  | .connect _ => c
+  | .item i it _ _ => if i = w then connEvent c it else c
+
+theorem step_closed_stays (p : Params) (l : Loop) (ev : Ev) (w : Nat) (c : Conn)
+    (hcw : l.conns[w]? = some c) (hp : c.phase = .closed) : (step p l ev).conns[w]? = some c := by
+  by_cases hw : ev.conn = w
+  · cases ev with
+    | connect i =>
+      have : i = w := hw
+      subst this
+      unfold step threadStep muxStep
+      split
+      · simp [hcw, hp]
+      · exact hcw
+    | item i it gone raw =>
+      have : i = w := hw
+      subst this
+      unfold step threadStep muxStep
+      split
+      · simp only [hcw]
+        split
+        · exact hcw
+        · split
+          · unfold threadItem; simp [hp, hcw]
+          · split
+            · exact hcw
+            · simp [hp, hcw]
+      · simp only [hcw]
+        split
+        · exact hcw
+        · simp [hp, hcw]
+  · rw [step_frame p l ev w hw]; exact hcw
+
+theorem step_witness (p : Params) (hg : GoodCfg p.cfg) (l : Loop) (ev : Ev) (hc : ClientEv ev) (w : Nat) (c : Conn)
+    (hcw : l.conns[w]? = some c) (hp : c.phase = .active) (hs : Served p l w)
+    (hstay : ∀ it gone raw, ev = .item w it gone raw → gone = false) :
+    (step p l ev).conns[w]? = some (evOn w ev c) ∧
+    ((evOn w ev c).phase = .active → Served p (step p l ev) w) := by
+  by_cases hw : ev.conn = w
+  · cases ev with
+    | connect i =>
+      have : i = w := hw
+      subst this
+      have hstep : step p l (.connect i) = l := by
+        unfold step threadStep muxStep
+        split
+        · simp [hcw, hp]
+        · rfl
+      rw [hstep]
+      exact ⟨hcw, fun _ => hs⟩
+    | item i it gone raw =>
+      have : i = w := hw
+      subst this
+      have hgone : gone = false := hstay it gone raw rfl
+      subst hgone
+      obtain ⟨hesc, hce⟩ := doRequest_connEvent c it raw hp
+      simp only at hesc hce
+      simp only [evOn, if_true]
+      unfold Served at hs ⊢
+      unfold step
+      cases hk : p.kind with
+      | thread =>
+        rw [hk] at hs
+        simp only at hs ⊢
+        unfold threadStep
+        simp only [hcw]
+        rw [if_neg (by simpa using hs.2), if_pos (by simpa using hs.1)]
+        unfold threadItem
+        simp only [hp]
+        cases he : (doRequest c it false raw).esc with
+        | none =>
+          simp only [he, Option.isSome_none, Bool.false_eq_true, if_false] at hce
+          simp only [setConn_get_self l i _ c hcw, hce, setConn_busy, setConn_zombie]
+          exact ⟨rfl, fun _ => hs⟩
+        | some e =>
+          simp only [he, Option.isSome_some, if_true] at hce
+          simp only [workerExit_conns, setConn_get_self l i _ c hcw, hce]
+          exact ⟨rfl, fun h => by simp at h⟩
+      | multiplex =>
+        rw [hk] at hs
+        simp only at hs ⊢
+        unfold muxStep
+        simp only [hcw, hp]
+        rw [if_neg (by simp [hs.1, hs.2.2]), if_neg (by simp [hs.2.1])]
+        cases he : (doRequest c it false raw).esc with
+        | none =>
+          simp only [he, Option.isSome_none, Bool.false_eq_true, if_false] at hce
+          simp only [setConn_get_self l i _ c hcw, hce, setConn_running, setConn_registered, setConn_zombie]
+          exact ⟨rfl, fun _ => hs⟩
+        | some e =>
+          have hx := doRequest_esc_exc c it false raw hc e he
+          simp only [he, Option.isSome_some, if_true] at hce
+          simp only [caught_of_exception hg.muxReq hx, if_true, hce]
+          refine ⟨?_, fun h => by simp at h⟩
+          exact setConn_get_self l i _ c hcw
+  · have hev : evOn w ev c = c := by
+      cases ev with
+      | connect i => rfl
+      | item i it gone raw => simp only [evOn]; rw [if_neg hw]
+    rw [hev, step_frame p l ev w hw]
+    refine ⟨hcw, fun _ => ?_⟩
+    have hm := step_mem_frame p l ev w hw
+    have hr := step_running p hg l ev hc
+    unfold Served at hs ⊢
+    cases hk : p.kind with
+    | thread =>
+      rw [hk] at hs; simp only at hs ⊢
+      exact ⟨hm.1.2 hs.1, fun hz => hs.2 (hm.2.1.1 hz)⟩
+    | multiplex =>
+      rw [hk] at hs; simp only at hs ⊢
+      exact ⟨by rw [hr]; exact hs.1, hm.2.2.1.2 hs.2.1, fun hz => hs.2.2 (hm.2.1.1 hz)⟩
 
 end Pyro.ServerLoop
